@@ -195,7 +195,7 @@ pub fn c17(out: &mut dyn Write, tier: &str, rng: &mut Rng, st: &mut Stats) {
     // root 2: hand-written layouts, blank symbols, short input, contradictory givens
     for p in ["................", "1...............", "12..\n34..\n....\n....", "1 2 3 4\n3 4 1 2\n2 1 4 3\n4 3 2 1",
               "11..............", "1234", "", "_-_-x·x·_-_-x·x·", "1...\n.2..\n..3.\n...4\n", "....\n....\n....\n...\"", "1\"34............",
-              "1.3.2...........", "4...............1", "1234341221434321 trailing text 99"] {
+              "1.3.2...........", "4...............1", "\u{b7}3\u{b7}\u{b7}\u{b7}\u{b7}2\u{b7}\u{b7}\u{b7}\u{b7}\u{b7}\u{b7}\u{b7}\u{b7}4", "\u{25a1}\u{25a1}\u{25a1}\u{25a1}\u{25a1}\u{25a1}\u{25a1}\u{25a1}\u{25a1}\u{25a1}\u{25a1}\u{25a1}\u{25a1}\u{25a1}\u{25a1}1", "1234341221434321 trailing text 99"] {
         cases.push((2, p.to_string()));
     }
     let n2 = if tier == "thorough" { 3000 } else { 150 };
@@ -204,7 +204,8 @@ pub fn c17(out: &mut dyn Write, tier: &str, rng: &mut Rng, st: &mut Stats) {
         let base = [1, 2, 3, 4, 3, 4, 1, 2, 2, 1, 4, 3, 4, 3, 2, 1];
         let mut perm = [1usize, 2, 3, 4];
         for i in (1..4).rev() { let j = rng.below(i as u64 + 1) as usize; perm.swap(i, j); }
-        let blanks = ['.', '-', 'x', '_', ' ', '*'];
+        // multi-byte blanks (2, 3 and 4 bytes in UTF-8, and a non-ASCII digit): cells are counted in characters
+        let blanks = ['.', '-', 'x', '_', ' ', '*', '\u{b7}', '\u{25a1}', '\u{1f7e6}', '\u{ff11}'];
         let blank = *rng.pick(&blanks[..]);
         let keep = rng.below(17);
         let mut s = String::new();
@@ -225,7 +226,8 @@ pub fn c17(out: &mut dyn Write, tier: &str, rng: &mut Rng, st: &mut Stats) {
     let n3 = if tier == "thorough" { 50 } else { 4 };
     for _ in 0..n3 {
         let keep = 20 + rng.below(40);
-        let s: String = solved9.chars().map(|c| if rng.below(81) < keep { c } else { '.' }).collect();
+        let blank9 = *rng.pick(&['.', '.', '\u{b7}', '\u{25a1}'][..]);
+        let s: String = solved9.chars().map(|c| if rng.below(81) < keep { c } else { blank9 }).collect();
         cases.push((3, s));
     }
     for (root, puzzle) in cases {
